@@ -14,11 +14,36 @@ def _key_lin(symkey, c):
     return Lin(dict(symkey), c)
 
 
-def may_overlap(st, k1, w1, k2, w2):
+def _sym_range(st, symkey, cache):
+    r = cache.get(symkey)
+    if r is None:
+        lo = hi = 0
+        for a, c in symkey:
+            d = st.dom(a)
+            if c > 0:
+                lo += c * d.lo
+                hi += c * d.hi
+            else:
+                lo += c * d.hi
+                hi += c * d.lo
+        r = cache[symkey] = (lo, hi)
+    return r
+
+
+def may_overlap(st, k1, w1, k2, w2, cache=None):
     """Can [k1,k1+w1) and [k2,k2+w2) overlap?  k = (symkey,const); w int or term."""
     (s1, c1), (s2, c2) = k1, k2
     if s1 == s2 and isinstance(w1, int) and isinstance(w2, int):
         return c1 < c2 + w2 and c2 < c1 + w1
+    if isinstance(w1, int) and isinstance(w2, int):
+        if cache is None:
+            cache = {}
+        lo1, hi1 = _sym_range(st, s1, cache)
+        lo2, hi2 = _sym_range(st, s2, cache)
+        if hi1 + c1 + w1 <= lo2 + c2 or hi2 + c2 + w2 <= lo1 + c1:
+            return False
+        if not st.facts:
+            return True
     l1, l2 = _key_lin(s1, c1), _key_lin(s2, c2)
     W1 = lin_of(w1) if not isinstance(w1, int) else Lin({}, w1)
     W2 = lin_of(w2) if not isinstance(w2, int) else Lin({}, w2)
@@ -50,8 +75,9 @@ def load_byte(st, o, symkey, c):
                 return mk_byte(t, back)
     # other symbolic cells that may alias
     if o.cells:
+        cache = {}
         for (s2, c2), (w2, t2) in o.cells.items():
-            if s2 != symkey and may_overlap(st, (symkey, c), 1, (s2, c2), w2):
+            if s2 != symkey and may_overlap(st, (symkey, c), 1, (s2, c2), w2, cache):
                 return ('sym', st.fresh('alias:%s' % o.id), 0, 255)
     for reg in getattr_regions(o):
         rk, rn, src = reg
@@ -138,6 +164,7 @@ def fit_int(st, t, ct, from_unsigned_bytes=False):
     if d.lo >= lo and d.hi <= hi:
         return t
     if t[0] not in ('c', 'cat', 'in', 'byte') and (st.facts or t[0] in ('add', 'sub', 'mul')) and (d.lo >= lo or st.prove_le(C(lo), t)) and (d.hi <= hi or st.prove_le(t, C(hi))):
+        st.env[st.canon(t)] = d.meet(Dom(lo, hi))
         return t
     n = ct.size
     if ct.is_bool():
@@ -156,11 +183,12 @@ def fit_int(st, t, ct, from_unsigned_bytes=False):
 def kill_range(st, o, symkey, c, n):
     """Remove / split cells overlapping [c, c+n) (n int) before a strong store."""
     dead = []
+    cache = {}
     for (s2, c2), (w2, t2) in o.cells.items():
         if s2 == symkey:
             if c2 < c + n and c < c2 + w2:
                 dead.append(((s2, c2), w2, t2))
-        elif may_overlap(st, (symkey, c), n, (s2, c2), w2):
+        elif may_overlap(st, (symkey, c), n, (s2, c2), w2, cache):
             dead.append(((s2, c2), w2, None))
     for k, w2, t2 in dead:
         del o.cells[k]
